@@ -11,7 +11,76 @@ pub proof fn lemma_wf_facts(c: CState)
         c.exists && c.latest == nil_id() ==> c.children =~= Map::empty() && c.versions =~= Map::empty(),
         c.exists ==> (c.snapshot is Some <==> c.snapshot_data is Some),
 {
-    admit();
+    if c.exists {
+        let n = choose|n: nat| chain_n(c, n);
+        lemma_chain_n_facts(c, n);
+    }
+}
+
+pub proof fn lemma_chain_n_facts(c: CState, n: nat)
+    requires chain_n(c, n),
+    ensures
+        !stored(c, nil_id()),
+        !c.children.dom().contains(c.latest) || c.latest == nil_id(),
+        c.latest == nil_id() ==> c.children =~= Map::empty() && c.versions =~= Map::empty(),
+{
+    if stored(c, nil_id()) {
+        let k = choose|k: nat| k < n && back(c, k) == nil_id();
+        assert(stored(c, back(c, k)));
+    }
+    if c.children.dom().contains(c.latest) && c.latest != nil_id() {
+        let u = c.children[c.latest];
+        assert(stored(c, u));
+        let k = choose|k: nat| k < n && back(c, k) == u;
+        assert(stored(c, back(c, k)));
+        assert(back(c, k + 1) == c.latest);
+        assert(back(c, 0) == c.latest);
+        assert(stored(c, back(c, 0)));
+        if k + 1 < n {
+            assert(back(c, 0) != back(c, k + 1));
+        } else {
+            assert(k + 1 == n);
+        }
+        assert(false);
+    }
+    if c.latest == nil_id() {
+        assert(n == 0);
+        assert forall|u: Uuid| !c.versions.dom().contains(u) by {
+            if stored(c, u) {
+                let k = choose|k: nat| k < n && back(c, k) == u;
+            }
+        }
+        assert forall|p: Uuid| !c.children.dom().contains(p) by {
+            if c.children.dom().contains(p) {
+                assert(stored(c, c.children[p]));
+            }
+        }
+    }
+}
+
+/// after an accepted add_version, every old position moves one step away from the latest
+proof fn lemma_back_shift(c: CState, v: Uuid, p: Uuid, seg: Seq<u8>, n: nat, k: nat)
+    requires
+        chain_n(c, n), n >= 1, p == c.latest, k <= n,
+        !c.versions.dom().contains(v),
+    ensures
+        back(add_version_spec(c, v, p, seg), k + 1) == back(c, k),
+    decreases k,
+{
+    let d = add_version_spec(c, v, p, seg);
+    assert(back(d, 0) == v);
+    if k == 0 {
+        assert(back(d, 1) == d.versions[back(d, 0)].parent_version_id);
+    } else {
+        lemma_back_shift(c, v, p, seg, n, (k - 1) as nat);
+        let u = back(c, (k - 1) as nat);
+        assert(back(d, k) == u);
+        assert(stored(c, back(c, (k - 1) as nat)));
+        assert(u != v);
+        assert(d.versions[u] == c.versions[u]);
+        assert(back(d, k + 1) == (if d.versions.dom().contains(back(d, k)) { d.versions[back(d, k)].parent_version_id } else { nil_id() }));
+        assert(back(c, k) == (if c.versions.dom().contains(back(c, (k - 1) as nat)) { c.versions[back(c, (k - 1) as nat)].parent_version_id } else { nil_id() }));
+    }
 }
 
 pub proof fn lemma_add_version_preserves_wf(c: CState, v: Uuid, p: Uuid, seg: Seq<u8>)
@@ -21,17 +90,160 @@ pub proof fn lemma_add_version_preserves_wf(c: CState, v: Uuid, p: Uuid, seg: Se
     ensures
         chain_wf(add_version_spec(c, v, p, seg)),
 {
-    admit();
+    let n = choose|n: nat| chain_n(c, n);
+    lemma_add_version_chain_n(c, v, p, seg, n);
+}
+
+pub proof fn lemma_add_version_chain_n(c: CState, v: Uuid, p: Uuid, seg: Seq<u8>, n: nat)
+    requires
+        chain_n(c, n), accept(c, p),
+        v != nil_id(), v != p, !c.versions.dom().contains(v), !c.children.dom().contains(v),
+    ensures
+        chain_n(add_version_spec(c, v, p, seg), n + 1),
+{
+    let d = add_version_spec(c, v, p, seg);
+    lemma_chain_n_facts(c, n);
+    assert(back(d, 0) == v);
+    assert(stored(d, v));
+    if n == 0 {
+        assert(c.versions =~= Map::empty());
+        assert(c.children =~= Map::empty());
+        assert(back(d, 1) == d.versions[back(d, 0)].parent_version_id);
+        assert(back(d, 1) == p);
+        assert forall|k: nat| k < 1 implies #[trigger] stored(d, back(d, k)) && back(d, k) != nil_id()
+            && d.versions[back(d, k)].version_id == back(d, k) by {
+            assert(k == 0);
+        }
+        assert(!stored(d, back(d, 1)));
+        assert forall|u: Uuid| #[trigger] stored(d, u) implies exists|k: nat| k < 1 && back(d, k) == u by {
+            assert(u == v);
+            assert(back(d, 0) == u);
+        }
+        assert(c.snapshot is None) by {
+            if c.snapshot is Some {
+                let k = choose|k: nat| k <= n && back(c, k) == c.snapshot->Some_0.version_id;
+                assert(k == 0);
+            }
+        }
+        assert(chain_n(d, 1));
+    } else {
+        assert(c.latest != nil_id());
+        assert(p == c.latest);
+        assert forall|k: nat| k <= n implies back(d, k + 1) == back(c, k) by {
+            lemma_back_shift(c, v, p, seg, n, k);
+        }
+        // 1. stored positions
+        assert forall|k: nat| k < n + 1 implies #[trigger] stored(d, back(d, k)) && back(d, k) != nil_id()
+            && d.versions[back(d, k)].version_id == back(d, k) by {
+            if k > 0 {
+                let k1 = (k - 1) as nat;
+                assert(back(d, k1 + 1) == back(c, k1));
+                assert(stored(c, back(c, k1)));
+            }
+        }
+        // 2. the base is still not stored
+        assert(back(d, n + 1) == back(c, n));
+        assert(back(c, n) != v) by {
+            // the base is the parent of back(c, n-1), hence a key of `children`
+            let k1 = (n - 1) as nat;
+            assert(stored(c, back(c, k1)));
+            assert(back(c, k1 + 1) == c.versions[back(c, k1)].parent_version_id);
+        }
+        assert(!stored(d, back(d, n + 1)));
+        // 3. distinct
+        assert forall|i: nat, j: nat| i < j && j < n + 1 implies back(d, i) != back(d, j) by {
+            let j1 = (j - 1) as nat;
+            assert(back(d, j1 + 1) == back(c, j1));
+            assert(stored(c, back(c, j1)));
+            if i > 0 {
+                let i1 = (i - 1) as nat;
+                assert(back(d, i1 + 1) == back(c, i1));
+                assert(back(c, i1) != back(c, j1));
+            }
+        }
+        // 4. no orphans
+        assert forall|u: Uuid| #[trigger] stored(d, u) implies exists|k: nat| k < n + 1 && back(d, k) == u by {
+            if u == v {
+                assert(back(d, 0) == u);
+            } else {
+                assert(stored(c, u));
+                let k = choose|k: nat| k < n && back(c, k) == u;
+                assert(back(d, k + 1) == back(c, k));
+                assert(k + 1 < n + 1 && back(d, k + 1) == u);
+            }
+        }
+        // 5/6. children is the inverse of the parent links
+        assert forall|u: Uuid| #[trigger] stored(d, u) implies
+            d.children.dom().contains(d.versions[u].parent_version_id)
+            && d.children[d.versions[u].parent_version_id] == u by {
+            if u != v {
+                assert(stored(c, u));
+                assert(c.children.dom().contains(c.versions[u].parent_version_id));
+                assert(c.versions[u].parent_version_id != p);
+            }
+        }
+        assert forall|q: Uuid| #[trigger] d.children.dom().contains(q) implies
+            stored(d, d.children[q]) && d.versions[d.children[q]].parent_version_id == q by {
+            if q != p {
+                assert(c.children.dom().contains(q));
+                assert(stored(c, c.children[q]));
+            }
+        }
+        // 8. snapshot still on the chain
+        if c.snapshot is Some {
+            let k = choose|k: nat| k <= n && back(c, k) == c.snapshot->Some_0.version_id;
+            assert(back(d, k + 1) == back(c, k));
+            assert(k + 1 <= n + 1 && back(d, k + 1) == d.snapshot->Some_0.version_id);
+        }
+        assert(chain_n(d, n + 1));
+    }
+}
+
+/// a change that leaves versions / children / latest alone leaves every position alone
+proof fn lemma_back_same(c: CState, d: CState, k: nat)
+    requires d.versions == c.versions, d.latest == c.latest,
+    ensures back(d, k) == back(c, k),
+    decreases k,
+{
+    if k > 0 {
+        lemma_back_same(c, d, (k - 1) as nat);
+    }
 }
 
 pub proof fn lemma_set_snapshot_preserves_wf(c: CState, v: Uuid, data: Seq<u8>)
     requires
-        chain_wf(c), c.exists,
+        chain_wf(c), c.exists, v != nil_id(),
         exists|k: nat| k < 5 && #[trigger] back(c, k) == v && (forall|j: nat| j < k ==> #[trigger] stored(c, back(c, j))),
     ensures
         forall|t: DateTime<Utc>| chain_wf(set_snapshot_spec(c, #[trigger] new_snap(v, t), data)),
 {
-    admit();
+    let n = choose|n: nat| chain_n(c, n);
+    let kv = choose|k: nat| k < 5 && #[trigger] back(c, k) == v && (forall|j: nat| j < k ==> #[trigger] stored(c, back(c, j)));
+    assert(kv <= n) by {
+        if kv > n {
+            assert(stored(c, back(c, n)));
+        }
+    }
+    assert forall|t: DateTime<Utc>| chain_wf(set_snapshot_spec(c, #[trigger] new_snap(v, t), data)) by {
+        let d = set_snapshot_spec(c, new_snap(v, t), data);
+        assert forall|k: nat| back(d, k) == back(c, k) by { lemma_back_same(c, d, k); }
+        assert forall|k: nat| k < n implies #[trigger] stored(d, back(d, k)) && back(d, k) != nil_id()
+            && d.versions[back(d, k)].version_id == back(d, k) by {
+            assert(stored(c, back(c, k)));
+        }
+        assert forall|u: Uuid| #[trigger] stored(d, u) implies exists|k: nat| k < n && back(d, k) == u by {
+            assert(stored(c, u));
+            let k = choose|k: nat| k < n && back(c, k) == u;
+            assert(back(d, k) == u);
+        }
+        assert forall|u: Uuid| #[trigger] stored(d, u) implies
+            d.children.dom().contains(d.versions[u].parent_version_id)
+            && d.children[d.versions[u].parent_version_id] == u by {
+            assert(stored(c, u));
+        }
+        assert(kv <= n && back(d, kv) == d.snapshot->Some_0.version_id);
+        assert(chain_n(d, n));
+    }
 }
 
 } // verus!
